@@ -30,6 +30,9 @@ CHECKS = {
  "C05": ("model_checking", "same explicit-state BFS as C04 with /usr/sbin/e2fsck -f -n and debugfs as oracle after Create and after every transition, plus a Create-parameter matrix each followed by a depth-2 exploration",
          "After Create and after every explored transition (accepted or refused) the volume bytes are handed to e2fsck -f -n, which must exit 0, and every regular file is extracted with debugfs and compared with what was written. Create matrix: block size 1K/2K/4K x volume sizes single-group to multi-group x feature sets (64bit, flex_bg, sparse_super2 flag and SparseSuperVersion 2, resize inode, huge_file, dir_index, blocks-per-group, inode ratio/count) x journal x metadata_csum; e2fsck results are memoised by image digest.",
          "e2fsprogs 1.47.0 defines 'clean'; exploration does not continue behind a state e2fsck rejects; three sparse_super2 Create configurations are listed as known findings", "DESIGN.md §3 C05"),
+ "C13": ("exploration", "bounded-exhaustive enumeration of partition geometries x reader shapes executed on the real Write/ReadPartitionContents and CopyPartitionRaw over a sparse monitored device",
+         "Full cross product of table kind, logical/physical sector sizes, start sector (incl. beyond 4 GiB and near 2^32 sectors), size (1 sector to >= 4 GiB), reader length (exact, one byte short, one byte long, empty) and reader chunking (whole buffers, 1/7/513-byte pieces, data together with io.EOF); every WriteAt must lie inside the partition, the stored bytes must equal the reader's at the partition's own offset, success iff exactly the partition size was supplied, ReadPartitionContents must deliver exactly the partition's bytes, CopyPartitionRaw must reproduce the source and refuse a smaller target.",
+         "sparse position-dependent content; memdev write monitor", "DESIGN.md §3 C13"),
  "C02": ("exploration", "bounded-exhaustive enumeration of table inputs executed on the real Write/Read + independent on-disk parser",
          "Every table of a spelled-out finite cross product (entries, indices, spellings, geometries, names, attributes, types, disk sizes, sector sizes, PMBR, prior content) is written by the real code and compared via gpt.Read/mbr.Read, partition.Read, Disk.GetPartition and an independent UEFI-spec parser; exhaustive over that domain, says nothing outside it.",
          "memdev in-memory device; gptck (independent parser written from the UEFI spec) defines on-disk validity", "DESIGN.md §3 C02"),
